@@ -368,6 +368,8 @@ def run(ctx):
     # shared mutable state in the anchored modules makes every for-all-inputs claim depend on the
     # calls made before (two seeds - C06 round 2, C05 round 5 - hid a work buffer in a class
     # constant): PUR-GLOBAL on the anchored modules, unless the property runs it already
+    rules.append(lambda c: None if any(r_['rule'] == 'DIV-ZERO' for r_ in c.rules_run)
+                 else kal.div_zero(c, anchored, 1))
     if ctx.prop not in ('C19',):
         rules.append(lambda c: None if any(r_['rule'] == 'PUR-GLOBAL' for r_ in c.rules_run)
                      else purity.pur_global(c, anchored, 1))
